@@ -57,6 +57,8 @@ def alias_cables(d):
 
 
 ALIAS_KINDS = ['own-permuted', 'own-offset', 'own-subrange', 'own-mixed', 'other', 'shared']
+# default draw: the shapes the reader is known to take as written are drawn more often than the ones it re-bases / resizes
+ALIAS_DRAW = ['own-permuted'] * 3 + ['shared'] * 2 + ['own-mixed'] * 2 + ['other'] * 2 + ['own-subrange', 'own-offset']
 
 
 def alias_shapes(ad, r, p=0.5, per_port=0.4, kinds=None):
@@ -83,7 +85,7 @@ def alias_shapes(ad, r, p=0.5, per_port=0.4, kinds=None):
             continue
         for d in l['definitions']:
             if d['cables'] or d['instances']:
-                out += _alias_definition(d, r, per_port, kinds or ALIAS_KINDS)
+                out += _alias_definition(d, r, per_port, kinds or ALIAS_DRAW)
     return out
 
 
@@ -139,6 +141,8 @@ def _alias_definition(d, r, per_port, kinds):
         pn, w = q['name'], q['width']
         partners = [x for x in d['ports'] if x is not q and eligible(x) and x['direction'] == q['direction']]
         ks = [k for k in kinds if not ((k in ('own-permuted', 'own-mixed') and w < 2) or (k == 'shared' and not partners))]
+        if w < 2 and r.random() < 0.5:
+            continue                              # one-bit ports only have the shapes the reader resizes (and 'shared')
         if not ks:
             continue
         kind = r.choice(ks)
